@@ -112,13 +112,13 @@ func runProgram(p Program, backend int, prov Provider, out *Out) (po progOutcome
 		env.vm.SpawnAsync(runtime.MainFn(), nil, nil, nil)
 		num, i := env.vm.Wait()
 		o := classify(num, i)
-		po.Outcome, po.Msg = o.Kind, firstLine(o.Msg)
+		po.Outcome, po.Msg = o.Kind, o.Msg
 	} else {
 		ctx := NewCtx()
 		ctxp, _ := ctx.AsContext()
 		i := hms.Run(2000, a.Modules, p.Entry, TreeExec{Out: out}, hms.TestingInterpreterScopeAdditions(), ctxp)
 		o := classifyTree(i)
-		po.Outcome, po.Msg = o.Kind, firstLine(o.Msg)
+		po.Outcome, po.Msg = o.Kind, o.Msg
 	}
 	po.Out = out.Text()
 	return po
@@ -252,6 +252,32 @@ let g = 2;
 type T = int;
 type T = str;
 fn main() { dup(); println(g); }`)},
+	{"lambda-names", Single(`
+fn main() {
+    let f = fn() -> int { 1 };
+    let g = fn(x: int) -> int { 10 / x };
+    println(f);
+    println(f(), g(2));
+    println(g(0));
+}`)},
+	{"excess-object-fields", Single(`
+type Point = { x: int, y: int };
+fn main() {
+    let origin: Point = new { x: 0, y: 0, z: 0, label: "origin", w: 1.5 };
+    let other: { a: str } = new { a: "s", b: 1, c: 2 };
+    println(origin, other);
+}`)},
+	{"object-literal-eval-order", Single(`
+let counter = 0;
+fn next(tag: str) -> int { counter = counter + 1; println("next", tag, counter); counter }
+fn main() {
+    let o = new { id: next("id"), serial: next("serial"), batch: next("batch"), fixed: 7 };
+    println(o.id, o.serial, o.batch, o.fixed);
+    let zero = 0;
+    let l = [1];
+    let p = new { a: 1 / zero, b: l[5] };
+    println(p);
+}`)},
 	{"type-errors", Single(`
 fn f(a: int) -> str { a }
 fn main() {
